@@ -597,4 +597,71 @@ theorem findFileIn_module {root : FsNode} (hroot : RootOk root) {path : List Nam
       | file => exact absurd hl hnot
       | dir _ => rfl
 
+/-! ### whatever is chosen is a candidate (no hypothesis on the tree or the path) -/
+
+theorem scanDir_candidate {root : FsNode} {m : Name} {dir : Path} {r : Bool} {p : Path}
+    (h : scanDir root dir (m ++ dotYang) r = some p) :
+    ∃ p' fn, p = p' ++ [fn] ∧ IsCandidateName m fn := by
+  have := scanDir_eq root m ⟨dir, r⟩
+  simp only at this
+  rw [this] at h
+  obtain ⟨⟨p', es⟩, _, hb⟩ := List.exists_of_findSome?_eq_some h
+  unfold best at hb
+  rw [Option.map_eq_some_iff] at hb
+  obtain ⟨fn, hfn, rfl⟩ := hb
+  exact ⟨p', fn, rfl, (bestIn_mem hfn).2⟩
+
+theorem searchPath_candidate {root : FsNode} {m : Name} {p0 : List Name} : ∀ {path : List Name} {n : Name},
+    (searchPath root (m ++ dotYang) p0 path).chosen = some n →
+    ∃ p fn, n = render (p ++ [fn]) ∧ IsCandidateName m fn
+  | [], n, h => by simp [searchPath, Found.chosen] at h
+  | d :: rest, n, h => by
+    unfold searchPath at h
+    cases hd : parseEntry d with
+    | none => rw [hd] at h; simp [Found.chosen] at h
+    | some e =>
+      rw [hd] at h
+      simp only at h
+      cases hs : scanDir root e.dir (m ++ dotYang) e.recurse with
+      | some p =>
+        rw [hs] at h
+        simp only [Found.chosen, Option.some.injEq] at h
+        obtain ⟨p', fn, rfl, hc⟩ := scanDir_candidate hs
+        exact ⟨p', fn, h.symm, hc⟩
+      | none =>
+        rw [hs] at h
+        exact searchPath_candidate h
+
+theorem findFileIn_candidate {root : FsNode} {path : List Name} {m : Name} (hm : IsModuleName m) {n : Name}
+    (h : (findFileIn root path m).chosen = some n) :
+    ∃ p fn, n = render (p ++ [fn]) ∧ IsCandidateName m fn := by
+  unfold findFileIn at h
+  simp only [hm.1, hm.2, Bool.false_eq_true, if_false] at h
+  cases hs : scanDir root [] (m ++ dotYang) false with
+  | some p =>
+    rw [hs] at h
+    simp only at h
+    obtain ⟨p', fn, rfl, hc⟩ := scanDir_candidate hs
+    cases hl : lookup root [render (p' ++ [fn])] with
+    | none => rw [hl] at h; exact searchPath_candidate h
+    | some node =>
+      rw [hl] at h
+      cases node with
+      | file =>
+        simp only [Found.chosen, Option.some.injEq] at h
+        exact ⟨p', fn, h.symm, hc⟩
+      | dir _ => exact searchPath_candidate h
+  | none =>
+    rw [hs] at h
+    simp only at h
+    cases hl : lookup root [m ++ dotYang] with
+    | none => rw [hl] at h; exact searchPath_candidate h
+    | some node =>
+      rw [hl] at h
+      cases node with
+      | file =>
+        simp only [Found.chosen, Option.some.injEq] at h
+        exact ⟨[], m ++ dotYang, by rw [← h]; rfl, .inl (by rw [dotYang_eq])⟩
+      | dir _ => exact searchPath_candidate h
+
 end Goyang.Lemmas.File
